@@ -246,6 +246,28 @@ def handle (ws : List String) : String :=
         | .opaque => "throw:SyntaxError"
       mo ++ " " ++ sp ++ " " ++ devOut (devX pat fb sb steps)
     | _, _, _, _ => "bad-op"
+  -- the literal route (§7.8.5): function f(){ return /p/f }; r1 = f(); steps on r1; r1.lastIndex = 7; r1.xp = 1;
+  -- r2 = f(); identity, r2.lastIndex, typeof r2.xp; the same steps on r2; then the literal in a loop body.
+  -- otto (cmpl_evaluate_expression.go:84) calls newRegExpDirect on EVERY evaluation, as §7.8.5 demands:
+  -- r2 is a fresh object and behaves exactly as r1 did.
+  | ["xl", p, f, s, st] => match hex? p, hex? f, hex? s, steps? st with
+    | some pb, some fb, some sb, some steps =>
+      let pat := Str.decodeRunes pb
+      let fresh := "|diff:i0:undefined|"
+      let mo := match buildModel pat fb with
+        | .error c => "throw:" ++ c
+        | .opaque => "unmodelled"
+        | .ok g d r =>
+          let h := histOut (Model.run (goEngine d r) sb { global := g, lastIndex := .int 0 } steps)
+          h ++ fresh ++ h ++ "|loop:diff"
+      let sp := match buildSpec pat fb with
+        | .ok g d r =>
+          let h := histOut (Spec.run (es5Engine d r) (Str.unitsOfBytes sb) Str.unitsOfBytes { global := g, lastIndex := .int 0 } steps)
+          h ++ fresh ++ h ++ "|loop:diff"
+        | .error c => "throw:" ++ c
+        | .opaque => "throw:SyntaxError"
+      mo ++ " " ++ sp ++ " " ++ devOut (devX pat fb sb steps)
+    | _, _, _, _ => "bad-op"
   -- a RegExp object built FROM a RegExp object R = new RegExp(p, f):
   --   mode n: new RegExp(R)   u: new RegExp(R, undefined)   f: RegExp(R)   e: new RegExp(R, "g")   c: RegExp(R, "g")
   | ["xc", mode, p, f, s, st] => match hex? p, hex? f, hex? s, steps? st with
